@@ -28,6 +28,7 @@ type histParams struct {
 	Adversarial  bool `json:"adversarial"`   // C02: named tree + raw header/block events
 	StartUnknown bool `json:"start_unknown"` // start hash is a block the node has not seen at boot (pre-start mode)
 	ExtraDepth int  `json:"extra_depth"`
+	BlockFetch bool `json:"block_fetch,omitempty"` // C13: apply the block download oracle after every event
 	FailAt int      `json:"fail_at,omitempty"` // the FailAt-th storage operation returns an error
 	Prefix []string `json:"prefix,omitempty"` // events applied after the boot, before the explored history (a non-initial start state)
 	Plan   []planStep     `json:"plan,omitempty"`    // sched mode: deviations inserted at scheduling points
@@ -425,6 +426,9 @@ func runHist(p histParams, hist []string, withDrain bool) *histRun {
 		if p.Tx {
 			w.oracleFlags(false)
 		}
+		if p.BlockFetch {
+			w.oracleBlockFetch()
+		}
 	}
 	w.PanicViolations(p.Prop)
 	if len(w.viol) == 0 {
@@ -451,6 +455,9 @@ func runHist(p histParams, hist []string, withDrain bool) *histRun {
 					fmt.Sprintf("after the history and a fair drain (answers, pings, clock incl. 61 s and 601 s time-outs) the node has not converged: %s; node tip %d, peer tip %d", why, w.Node.LastHeight(ctx), len(w.Best)-1))
 			}
 			w.chainInvariants("C02")
+			if p.BlockFetch {
+				w.oracleBlockFetch()
+			}
 		}
 		if p.Tx {
 			w.txFinal(p.Live)
